@@ -1513,6 +1513,11 @@ func (s *manifestStore) updateReferrersIndex(ctx context.Context, subject ocispe
 			return nil
 		}
 		if err := s.repo.delete(ctx, *oldIndexDesc, true); err != nil {
+			if len(updatedReferrers) == 0 {
+				// no new index was pushed, so deleting the old index was
+				// the update itself, not the clean-up after it
+				return fmt.Errorf("failed to delete referrers index %s for referrers tag %s: %w", oldIndexDesc.Digest.String(), referrersTag, err)
+			}
 			return &ReferrersError{
 				Op:      opDeleteReferrersIndex,
 				Err:     fmt.Errorf("failed to delete dangling referrers index %s for referrers tag %s: %w", oldIndexDesc.Digest.String(), referrersTag, err),
